@@ -16,9 +16,19 @@ def gen_rename(rng, tier):
     return out
 
 
+def gen_rename_wide(rng, tier):
+    out = []
+    for _ in range(c05.n_programs(tier, quick=120)):
+        ws = c05.pick_wide_workspace(rng)
+        steps = c05.cursor_steps(["rename"], ws, rng, newname=rng.choice(FRESH))
+        out.append(c05.make_case([(fn, text) for fn, text, _ in ws], steps))
+    return out
+
+
 LEGS = [
     Leg("c11.rename", gen_rename, nontrivial=c05.nontrivial, describe=c05.describe, per_case_s=1.5,
         skip_model=c05.skip_model),
+    c05.wide_leg("c11.wide", "c11.rename", gen_rename_wide),
 ]
 
 
